@@ -750,7 +750,7 @@ func decodedArch(f string, p *dec.Package) string {
 
 func c02(run *ev.Run, tier string) {
 	n := ncases(150, 2000, tier)
-	run.Rule = "part 1 (exhaustive): every GOARCH documented in www/docs/goarch-to-pkg.md (parsed at run time) plus two undocumented ones x 5 formats, and the format-specific arch override verbatim; part 2 (exhaustive): all 32 combinations of optional version components x 5 formats; part 3: generated metadata (unicode / multi-line / blank-line / whitespace-only-line descriptions, empty optional fields, relation lists of length 0..6 with constraints in the format's syntax via overrides, custom fields, triggers, ipk extras, rpm extras, changelog). Every field decoded from control / rpm header / .PKGINFO is compared with the configured value. Directed additions: relations and custom fields supplied through the environment, refused rpm relations at every list position, two relations on one package, a changelog rewritten in place (also with unchanged length and mtime), entries dated after 2038, folded custom fields, relocation prefixes as spelled, epochs with leading zeros. non-trivial = multi-line description and >=3 non-empty relation lists; distinct = feature/shape fingerprint"
+	run.Rule = "part 1 (exhaustive): every GOARCH documented in www/docs/goarch-to-pkg.md (parsed at run time) plus two undocumented ones x 5 formats, and the format-specific arch override verbatim; part 2 (exhaustive): all 32 combinations of optional version components x 5 formats; part 3: generated metadata (unicode / multi-line / blank-line / whitespace-only-line descriptions, empty optional fields, relation lists of length 0..6 with constraints in the format's syntax via overrides, custom fields, triggers, ipk extras, rpm extras, changelog). Every field decoded from control / rpm header / .PKGINFO is compared with the configured value. Directed additions: relations and custom fields supplied through the environment, refused rpm relations at every list position, two relations on one package, a changelog rewritten in place (also with unchanged length and mtime), entries dated after 2038, folded custom fields, relocation prefixes as spelled, epochs with leading zeros. non-trivial = multi-line description and >=3 non-empty relation lists; distinct = feature/shape fingerprint; rpm epochs with leading zeros, homepages a URL library would re-encode, relations naming the package itself, a release of exactly 0, a description line beyond 1 MiB, good builds after failed ones"
 	var cmps int64
 	table, goarches, err := parseArchDoc(*flagRepo)
 	if err != nil {
